@@ -1,0 +1,169 @@
+//! Verification hooks, compiled only with the cargo feature `verif-hooks`.
+//!
+//! Everything in here is observation or control of a source of nondeterminism
+//! for an external model-checking harness. With the feature off none of this
+//! exists and the crate is unchanged. The hooks never replace library logic:
+//! the hooked build executes the same source lines as the plain build.
+//!
+//! All state is thread local, so concurrent explorations on different threads
+//! do not interfere.
+#![allow(missing_docs)]
+
+use std::cell::{Cell, RefCell};
+
+/// One entry of the draw log
+#[derive(Debug, Clone, Copy, PartialEq, Eq)]
+pub enum DrawEvent {
+    /// `random(bound)` drew `value` from the generator
+    Draw { bound: i64, value: i64 },
+    /// `resetRandom;` was executed
+    Reset,
+}
+
+/// Payload of the panic raised when the step budget is exhausted
+#[derive(Debug, Clone, Copy, PartialEq, Eq)]
+pub struct WatchdogExpired;
+
+thread_local! {
+    static SEED: Cell<Option<u64>> = const { Cell::new(None) };
+    static DRAWS: RefCell<Vec<DrawEvent>> = const { RefCell::new(Vec::new()) };
+    static MAP_ORDER: Cell<[usize; 3]> = const { Cell::new([0; 3]) };
+    static RAW_ORDER: RefCell<[Vec<usize>; 3]> = const { RefCell::new([Vec::new(), Vec::new(), Vec::new()]) };
+    static TOKENS: Cell<u64> = const { Cell::new(0) };
+    static EOF_PULLED: Cell<bool> = const { Cell::new(false) };
+    static BUDGET: Cell<u64> = const { Cell::new(u64::MAX) };
+}
+
+// ---- H1: seed override -------------------------------------------------------
+
+/// Make every iterator created on this thread use `seed` (None: seed from the OS as usual)
+pub fn set_seed_override(seed: Option<u64>) {
+    SEED.with(|s| s.set(seed));
+}
+
+pub(crate) fn seed_override() -> Option<u64> {
+    SEED.with(|s| s.get())
+}
+
+// ---- H2: draw log ------------------------------------------------------------
+
+/// Return and clear the draw log of this thread
+pub fn take_draw_log() -> Vec<DrawEvent> {
+    DRAWS.with(|d| std::mem::take(&mut *d.borrow_mut()))
+}
+
+/// Length of the draw log of this thread
+pub fn draw_log_len() -> usize {
+    DRAWS.with(|d| d.borrow().len())
+}
+
+pub(crate) fn log_reset() {
+    DRAWS.with(|d| d.borrow_mut().push(DrawEvent::Reset));
+}
+
+/// Stands in for the evaluation context inside `random`: forwards the draw to the
+/// real context and records the bound and the value that was drawn.
+#[derive(Debug)]
+pub(crate) struct LoggedCtx<'a> {
+    pub(crate) ctx: &'a crate::eval_context::EvalContext,
+    pub(crate) bound: i64,
+}
+
+impl LoggedCtx<'_> {
+    pub(crate) fn random<R: rand::distributions::uniform::SampleRange<i64>>(
+        &self,
+        range: R,
+    ) -> i64 {
+        let value = self.ctx.random(range);
+        DRAWS.with(|d| {
+            d.borrow_mut().push(DrawEvent::Draw {
+                bound: self.bound,
+                value,
+            })
+        });
+        value
+    }
+}
+
+// ---- H3: hash map drain order --------------------------------------------------
+
+/// Choose the order in which the parser sees the contents of its hash map number `which`
+/// (0: clock columns, 1: read outputs, 2: virtual signals). `index` selects one of the k!
+/// permutations of the k drained items (taken modulo k!); 0 is the identity.
+pub fn set_map_order(which: usize, index: usize) {
+    MAP_ORDER.with(|m| {
+        let mut v = m.get();
+        v[which] = index;
+        m.set(v);
+    });
+}
+
+/// The order in which the real `HashMap` handed out its items the last time map `which`
+/// was drained on this thread, as ranks in source order.
+pub fn raw_map_order(which: usize) -> Vec<usize> {
+    RAW_ORDER.with(|r| r.borrow()[which].clone())
+}
+
+pub(crate) fn permute_drained<T>(which: usize, items: &mut Vec<T>, key: impl Fn(&T) -> usize) {
+    // Record what the real hash map did, then replace it by the order the harness chose
+    let mut keys: Vec<usize> = items.iter().map(&key).collect();
+    keys.sort();
+    let raw = items
+        .iter()
+        .map(|item| keys.iter().position(|k| *k == key(item)).unwrap_or(0))
+        .collect();
+    RAW_ORDER.with(|r| r.borrow_mut()[which] = raw);
+
+    items.sort_by_key(&key);
+    let mut index = MAP_ORDER.with(|m| m.get()[which]);
+    let mut rest: Vec<T> = std::mem::take(items);
+    while !rest.is_empty() {
+        let n = rest.len();
+        items.push(rest.remove(index % n));
+        index /= n;
+    }
+}
+
+// ---- H4: token meter -----------------------------------------------------------
+
+/// Reset the token meter of this thread
+pub fn reset_token_meter() {
+    TOKENS.with(|t| t.set(0));
+    EOF_PULLED.with(|e| e.set(false));
+}
+
+/// Number of tokens the lexer handed to the parser since the last reset, and whether
+/// the synthetic end-of-input token was among them
+pub fn token_meter() -> (u64, bool) {
+    (TOKENS.with(|t| t.get()), EOF_PULLED.with(|e| e.get()))
+}
+
+pub(crate) fn token_pulled(eof: bool) {
+    if eof {
+        EOF_PULLED.with(|e| e.set(true));
+    } else {
+        TOKENS.with(|t| t.set(t.get() + 1));
+    }
+}
+
+// ---- H5: step watchdog -----------------------------------------------------------
+
+/// Allow `steps` more loop iterations inside the library on this thread before
+/// panicking with a [WatchdogExpired] payload (None: unlimited)
+pub fn set_step_budget(steps: Option<u64>) {
+    BUDGET.with(|b| b.set(steps.unwrap_or(u64::MAX)));
+}
+
+pub(crate) fn tick() {
+    BUDGET.with(|b| {
+        let left = b.get();
+        if left == u64::MAX {
+            return;
+        }
+        if left == 0 {
+            b.set(u64::MAX);
+            std::panic::panic_any(WatchdogExpired);
+        }
+        b.set(left - 1);
+    });
+}
